@@ -7,13 +7,15 @@ FRAGMENTS = {
     'return-outside-routine': ['return', 'return 5', 'if {1} return', 'repeat 2 begin return end', 'print 1 return print 2',
                                'define f begin return 1 end return'],
     'assign-to-macro': ['define m 5 assign m 6', 'define m 5 repeat 2 begin assign m 1 end', 'define m "a" assign m "b"',
-                        'define m 5 define f begin assign m 1 end', 'define m 5 assign m {m + 1}', 'define m 12:30 assign m 1'],
+                        'define m 5 define f begin assign m 1 end', 'define m 5 assign m {m + 1}', 'define m 12:30 assign m 1',
+                        'define m 5 define f with m begin hue 1 end assign m 6', 'define m 5 define f with a m begin hue a end f 1 2 assign m 7'],
     'redefine-macro': ['define m 5 define m 6', 'define m 5 define m begin hue 1 end', 'define m 5 hue m define m "x"',
                        'define m 5 define k m define m 7'],
     'undefined-name': ['hue x', 'print y', 'assign a b', 'hue {x + 1}', 'f 1', 'hue [g 2]', 'repeat n begin hue 1 end',
                        'define f with a begin hue b end', 'if {q} hue 1', 'set "a" zone z', 'repeat with i from 1 to k begin hue i end',
                        'define f begin assign loc 1 end hue loc', 'assign v 1 hue {v + w}', 'define f with a begin hue a end f u',
-                       'printf "{}" nope', 'repeat while {c < 3} begin hue 1 end', 'time at noon', 'define m k', 'hue {1 + [h 2]}'],
+                       'printf "{}" nope', 'define f with p_ begin hue p_ end hue p_', 'define f with p_ q_ begin hue p_ end define g begin hue q_ end',
+                       'define f with p_ begin assign loc_ p_ end print loc_', 'define f with p_ begin hue p_ end on p_', 'repeat while {c < 3} begin hue 1 end', 'time at noon', 'define m k', 'hue {1 + [h 2]}'],
     'nested-routine': ['define f begin define g begin hue 1 end end', 'define f with a begin repeat 2 begin define g begin hue 1 end end end',
                        'define f begin if {1} begin define g with x begin hue x end end end',
                        'define f begin hue 1 define g with y begin hue y end hue 2 end'],
